@@ -1,11 +1,18 @@
 #!/bin/bash
-# Build the harness from a private snapshot of the sources in which the modules other agents are
-# still writing (listed in $STUBS, default none) are replaced by their committed version
-# (helper modules <m>_*.rs that are not committed yet are dropped together with their `mod` line).
+# Build the harness from a private snapshot of the sources.
+#  * modules other agents are still writing (listed in $STUBS) are replaced by their committed version
+#    (helper modules <m>_*.rs that are not committed yet are dropped together with their `mod` line);
+#  * sozu comes from a clean worktree of /repo at HEAD (/var/tmp/repo-clean), never from /repo's working
+#    tree, which tools/seeded_run.sh may be modifying at the same time;
+#  * with MUTANT=<patch> the patch is applied to a second scratch worktree (/var/tmp/repo-mut) and the
+#    binary goes to /var/tmp/vp-mut-target/verif/vp (used to develop a check against a seeded regression).
 set -e
 SNAP=/var/tmp/vpsnap/harness
+REPO=/var/tmp/repo-clean; TGT=/var/tmp/vp-main-target
+if [ -n "${MUTANT:-}" ]; then REPO=/var/tmp/repo-mut; TGT=/var/tmp/vp-mut-target; SNAP=/var/tmp/vpsnap-mut/harness; fi
 mkdir -p $SNAP
 rsync -a --delete --exclude target /verif/harness/ $SNAP/
+ln -sfn /verif/fixtures $(dirname $SNAP)/fixtures
 for m in $STUBS; do
   git -C /verif show HEAD:harness/vp/src/props/$m.rs > $SNAP/vp/src/props/$m.rs
   git -C /verif show HEAD:harness/vp/Cargo.toml > $SNAP/vp/Cargo.toml
@@ -17,12 +24,11 @@ for m in $STUBS; do
     fi
   done
 done
-# development builds use a clean worktree of /repo (HEAD), so that a seeded regression applied to /repo's
-# working tree by tools/seeded_run.sh at the same time is never compiled in by accident
-git -C /var/tmp/repo-clean checkout -q --detach $(git -C /repo rev-parse HEAD) 2>/dev/null
-git -C /var/tmp/repo-clean checkout -q -- . ; if [ -n "${MUTANT:-}" ]; then git -C /var/tmp/repo-clean apply $MUTANT && echo "(scratch worktree carries $MUTANT)"; fi
-sed -i 's#"/repo/#"/var/tmp/repo-clean/#g' $SNAP/vp/Cargo.toml $SNAP/oracles/Cargo.toml
-cd $SNAP && CARGO_NET_OFFLINE=true CARGO_TARGET_DIR=/var/tmp/vp-main-target cargo build --profile verif 2>&1 | grep -E "^error" -A14 | head -60
-if [ ${PIPESTATUS[0]} -ne 0 ]; then echo "BUILD FAILED"; exit 1; fi
-git -C /var/tmp/repo-clean checkout -q -- .
-echo "built: /var/tmp/vp-main-target/verif/vp"
+git -C $REPO checkout -q -- . ; git -C $REPO checkout -q --detach $(git -C /repo rev-parse HEAD) 2>/dev/null
+if [ -n "${MUTANT:-}" ]; then git -C $REPO apply $MUTANT && echo "(scratch worktree $REPO carries $MUTANT)"; fi
+sed -i "s#\"/repo/#\"$REPO/#g" $SNAP/vp/Cargo.toml $SNAP/oracles/Cargo.toml
+cd $SNAP && CARGO_NET_OFFLINE=true CARGO_TARGET_DIR=$TGT cargo build --profile verif 2>&1 | grep -E "^error" -A14 | head -60
+rc=${PIPESTATUS[0]}
+if [ -n "${MUTANT:-}" ]; then git -C $REPO checkout -q -- . ; fi
+if [ $rc -ne 0 ]; then echo "BUILD FAILED"; exit 1; fi
+echo "built: $TGT/verif/vp"
